@@ -139,7 +139,7 @@ def p_mixed(fs):
 
 def run(ctx):
     rng = ctx.rng
-    vers = valid_versions(rng, ctx.n(300, 3000)) + [b for b in _ver.BOUNDARY if '_' not in b] + ['1.0.tar.2', '1.0.orig.tar.1', '2.tar.gz1', '1.dsc', '1.0.deb.1']
+    vers = valid_versions(rng, ctx.n(300, 3000)) + [b for b in _ver.BOUNDARY if '_' not in b] + ['1.0.tar.2', '1.0.orig.tar.1', '2.tar.gz1', '1.dsc', '1.0.deb.1', '1.0.debian', '1.0.orig', '2.orig.debian', '1.debian.orig', '1.0+debian', '3.deb', '1.0.tar']
     cases = []
     for _ in range(ctx.n(6000, 80000)):
         n, v, d = rng.choice(NAMES), rng.choice(vers), rng.choice(DIRS)
